@@ -66,6 +66,14 @@ fn check_run(obs: &mut Obs, what: &str, name: &str, run: &cli::Run, rr: &refvm::
     true
 }
 
+/// `text` with `size` bytes of comment lines in front of it (`front`) or between two of its lines.
+fn pad_source(text: &str, front: bool, size: usize) -> String {
+    let line = format!("; {}\n", "padding ".repeat(125));
+    let pad = line.repeat(size / line.len() + 1);
+    let at = if front { 0 } else { { let nl: Vec<usize> = text.match_indices('\n').map(|(i, _)| i + 1).collect(); nl.get(nl.len() / 2).copied().unwrap_or(0) } };
+    format!("{}{}{}", &text[..at], pad, &text[at..])
+}
+
 pub fn judge_case(c: &Case) -> Obs {
     let mut obs = Obs::default();
     match c {
@@ -87,6 +95,17 @@ pub fn judge_case(c: &Case) -> Obs {
             let shown = format!("input {input:?} stack={}\n{text}", built.stack);
             obs.show = Some(shown.clone());
             obs.key = hash_of(&(&text, input));
+            // one source in twelve is a large file: comment lines (1,000 characters each, so that
+            // neither line numbers nor columns grow large) carry it past 64 KiB, 1 MiB, 4 MiB or
+            // 8 MiB - in front of the program, or between two of its lines - and every statement
+            // behind them must still reach the image (the shown text stays the unpadded one)
+            let text = if (obs.key >> 33) % 12 == 0 {
+                let size = [70usize << 10, 1100 << 10, 4300 << 10, 8500 << 10][((obs.key >> 40) % 4) as usize];
+                obs.label("source-file-padded-past-a-size-threshold");
+                pad_source(&text, layout.style >= 3 || (obs.key >> 43) % 2 == 0, size)
+            } else {
+                text
+            };
             let dir = TempDir::new();
             // how the files are called must not matter; a third of the compiles use the default
             // destination (<source stem>.lc3 in the working directory)
